@@ -1020,7 +1020,7 @@ def plan(tier, seed):
                   weight=sum(small) * 10))
     heavy = {'Spectral', 'LinearComplexity[512]', 'LinearComplexity[10]', 'Serial',
              'ApproximateEntropy', 'NonOverlappingTemplateMatching'}
-    bb = big if thorough else [n for n in big if n < 400000]
+    bb = big if thorough or nm == 'Universal' else [n for n in big if n < 400000]
     if nm in heavy and not thorough:
       bb = [n for n in bb if n < 140000]
     for n in bb:
